@@ -118,7 +118,7 @@ impl CommentProbe {
 //@  header: fn snippet_comment(compressed_arg: bool, c: &CommentProbe, dest: &CommentProbe) -> Result<(), ()>
 //@  subst: scope.get_format().is_compressed() => compressed_arg
 //@  subst: c.evaluate(scope)?.take_value() => c.text()
-//@  subst: dest.push_comment(text.into()) => dest.push(text)
+//@  resubst: dest\.push_comment\((.*?)\.into\(\)\) => dest.push(\1)
 //@  tail: Ok(())
 //@end
 
